@@ -150,6 +150,24 @@ class LangGen:
                 if any(a['name'] == nm and {a['leftAsset'], a['rightAsset']} == {la, ra} for a in self.assocs):
                     nm = f'Assoc{i}'
             lf, rf = f'f{fcount}', f'f{fcount + 1}'; fcount += 2
+            if self.assocs and r.random() < self.k['reuse_fields']:
+                # MAL only requires a field name to be unique among the fields one asset hierarchy owns: the owner of the
+                # right field is the left asset and vice versa.  Re-use names of other associations where that is legal
+                # (e.g. 'owner' used by two unrelated assets, or by an asset that is itself pointed to by an 'owner' field).
+                def related(t, u): return self.is_sub(t, u) or self.is_sub(u, t)
+                def owned_by(t):
+                    res = set()
+                    for a in self.assocs:
+                        if related(t, a['leftAsset']): res.add(a['rightField'])
+                        if related(t, a['rightAsset']): res.add(a['leftField'])
+                    return res
+                pool = sorted({a['leftField'] for a in self.assocs} | {a['rightField'] for a in self.assocs})
+                cand_r = [f for f in pool if f not in owned_by(la)]
+                if cand_r: rf = r.choice(cand_r)
+                # (the two ends of one association get different names: the generated class keys its fields by name,
+                #  an association with the same field name on both ends cannot be represented — recorded finding KF-C06-1)
+                cand_l = [f for f in pool if f not in owned_by(ra) and f != rf]
+                if cand_l and r.random() < 0.5: lf = r.choice(cand_l)
             lm, rm = r.choice(MULTS), r.choice(MULTS)
             cand = {'name': nm, 'meta': {} if r.random() < 0.7 else {'user': 'assoc info'},
                     'leftAsset': la, 'leftField': lf, 'leftMultiplicity': {'min': lm[0], 'max': lm[1]},
